@@ -154,6 +154,23 @@ def outcome_of_exception(e: BaseException) -> tuple[str, str]:
     return ("pyexc", type(e).__name__)
 
 
+_LOOP: list[Any] = []
+
+
+def render_impl_async(src: str, data: dict[str, Any], pol: str, auto_escape: bool = False) -> tuple[str, str]:
+    """The same render through Template.render_async (the async twins of every node)."""
+    import asyncio
+    if not _LOOP:
+        _LOOP.append(asyncio.new_event_loop())
+    del _TOUCHED[:]
+    try:
+        t = _env(pol, auto_escape).from_string(src)
+        o = ("ok", _LOOP[0].run_until_complete(t.render_async(**data)))
+    except Exception as e:  # noqa: BLE001
+        o = outcome_of_exception(e)
+    return _probe_outcome(o) if pol == "P" else o
+
+
 def render_impl(src: str, data: dict[str, Any], pol: str, auto_escape: bool = False) -> tuple[str, str]:
     del _TOUCHED[:]
     try:
@@ -279,6 +296,8 @@ def p_stmt(s: tuple) -> str:
         return "{% capture " + s[1] + " %}" + p_block(s[2]) + "{% endcapture %}"
     if k in ("if", "unless"):
         out = "{% " + k + " " + p_cond(s[1]) + " %}" + p_block(s[2])
+        for ec, eb in (s[4] if len(s) > 4 else []):
+            out += "{% elsif " + p_cond(ec) + " %}" + p_block(eb)
         if s[3] is not None:
             out += "{% else %}" + p_block(s[3])
         return out + "{% end" + k + " %}"
@@ -396,7 +415,8 @@ def c_stmt(s: tuple) -> str:
     if k == "capture":
         return f"(SCapture {cs(s[1])} {c_block(s[2])})"
     if k in ("if", "unless"):
-        return f"({'SIf' if k == 'if' else 'SUnless'} {c_expr(s[1])} {c_block(s[2])} {c_oblock(s[3])})"
+        elifs = C.clist((C.cpair(c_expr(ec), c_block(eb)) for ec, eb in (s[4] if len(s) > 4 else [])), "(expr * list stmt)")
+        return f"({'SIf' if k == 'if' else 'SUnless'} {c_expr(s[1])} {c_block(s[2])} {elifs} {c_oblock(s[3])})"
     if k == "case":
         whens = C.clist((C.cpair(C.clist((c_expr(x) for x in es), "expr"), c_block(b)) for es, b in s[2]),
                         "(list expr * list stmt)")
@@ -489,6 +509,9 @@ def refs_of_block(b: list[tuple] | None, acc: list[tuple]) -> None:
         elif k in ("if", "unless"):
             refs_of_expr(s[1], acc)
             refs_of_block(s[2], acc)
+            for ec, eb in (s[4] if len(s) > 4 else []):
+                refs_of_expr(ec, acc)
+                refs_of_block(eb, acc)
             refs_of_block(s[3], acc)
         elif k == "case":
             refs_of_expr(s[1], acc)
@@ -712,8 +735,9 @@ def gen_block(r: Any, local: list[str], depth: int, n: int | None = None) -> lis
             out.append(("capture", v, gen_block(r, local, depth - 1)))
             local = local + [v]
         elif x < 0.8:
+            elifs = [(gen_cond(r, local, 1), gen_block(r, local, depth - 1, n=1)) for _ in range(r.choice([0, 0, 0, 1, 2]))]
             out.append((r.choice(["if", "if", "unless"]), gen_cond(r, local), gen_block(r, local, depth - 1),
-                        gen_block(r, local, depth - 1) if r.random() < 0.6 else None))
+                        gen_block(r, local, depth - 1) if r.random() < 0.6 else None, elifs))
         elif x < 0.88:
             whens = [([gen_prim(r, local=local) for _ in range(r.choice([1, 1, 2]))], gen_block(r, local, depth - 1))
                      for _ in range(r.choice([1, 2]))]
@@ -801,6 +825,63 @@ def site_programs() -> list[tuple[list[tuple], dict[str, Any]]]:
         progs.append([("out", ("filter", p, "default", [L("D")], []))])
     data = dict(BASE)
     return [(p, data) for p in progs]
+
+
+def lazy_programs() -> list[tuple[list[tuple], dict[str, Any], list[tuple]]]:
+    """Every short-circuit site: (program, data, references that the render must
+    never reach).  The deciding value sits at each position; a deletable
+    variable sits at every other position."""
+    data = {"a": 3, "b": 3, "c": 4, "u1": 4, "u2": 5, "u3": 6, "t": True, "f": False, "l": [1, 2], "el": [], "s": "x"}
+    U1, U2, U3, A = P("u1"), P("u2"), P("u3"), P("a")
+    T, F = P("t"), P("f")
+    out: list[tuple[list[tuple], dict[str, Any], list[tuple]]] = []
+
+    def add(prog: list[tuple], unreached: list[tuple]) -> None:
+        out.append((prog, data, [(x[1],) for x in unreached]))
+
+    W = [("text", "W")]
+    # case / when with several values: the values after the first match are not evaluated
+    for n in (2, 3, 4):
+        for pos in range(n):
+            vals = [P("b") if i == pos else (U1, U2, U3)[i if i < pos else i - 1] for i in range(n)]
+            unreached = [v for i, v in enumerate(vals) if i > pos]
+            add([("case", A, [(vals, W)], [("text", "E")])], unreached)
+            add([("case", A, [(vals, W), ([U3], [("text", "X")])], None)], unreached)
+    # a later `when` block / the else block is not rendered
+    add([("case", A, [([P("b")], W), ([P("c")], [("out", U1)])], [("out", U2)])], [U1, U2])
+    add([("case", A, [([P("c")], [("out", U1)]), ([P("b")], W)], [("out", U2)])], [U1, U2])
+    # and / or: the right operand after a deciding left operand
+    for cond, unreached in ((("or", T, U1), [U1]), (("and", F, U1), [U1]), (("or", ("or", F, T), U1), [U1]),
+                            (("and", ("and", T, F), U1), [U1]), (("or", T, ("and", U1, U2)), [U1, U2]),
+                            (("and", F, ("or", U1, U2)), [U1, U2]), (("or", ("cmp", "eq", A, P("b")), ("cmp", "eq", U1, U2)), [U1, U2]),
+                            (("and", ("cmp", "lt", P("c"), A), ("cmp", "contains", U1, U2)), [U1, U2]),
+                            (("or", ("not", F), U1), [U1])):
+        add([("if", cond, W, [("text", "E")])], unreached)
+        add([("unless", cond, W, [("text", "E")])], unreached)
+        add([("out", ("tern", P("s"), cond, P("c")))], unreached)
+    # ternary: the branch not taken (and its filters)
+    add([("out", ("tern", A, T, U1))], [U1])
+    add([("out", ("tern", U1, F, A))], [U1])
+    add([("out", ("tern", A, T, ("filter", U1, "append", [U2], [])))], [U1, U2])
+    add([("out", ("tern", ("filter", U1, "append", [U2], []), F, A))], [U1, U2])
+    add([("assign", "v", ("tern", A, T, U1)), ("out", P("v"))], [U1])
+    # if / elsif / else: conditions and blocks after a true branch
+    add([("if", T, W, [("out", U1)], [(U2, [("out", U3)])])], [U1, U2, U3])
+    add([("if", F, [("out", U1)], [("out", U2)], [(T, W), (U3, [("text", "X")])])], [U1, U2, U3])
+    add([("if", F, [("out", U1)], [("text", "E")], [(F, [("out", U2)])])], [U1, U2])
+    add([("unless", F, W, [("out", U1)], [(U2, [("out", U3)])])], [U1, U2, U3])
+    add([("unless", T, [("out", U1)], [("out", U2)], [(T, W), (U3, [("text", "X")])])], [U1, U2, U3])
+    add([("if", T, W, [("out", U1)])], [U1])
+    add([("if", F, [("out", U1)], [("text", "E")])], [U1])
+    add([("unless", T, [("out", U1)], None)], [U1])
+    # for ... else: the body that is not entered
+    add([("for", "i", P("l"), None, [("out", P("i"))], [("out", U1)])], [U1])
+    add([("for", "i", P("el"), None, [("out", U1)], [("text", "E")])], [U1])
+    add([("for", "i", P("l"), L(0), [("out", U1)], [("text", "E")])], [U1])
+    add([("for", "i", ("arr", [A, A]), None, [("out", P("i"))], [("out", U1)])], [U1])
+    # a capture / assign that is skipped
+    add([("if", F, [("assign", "v", U1), ("capture", "cp", [("out", U2)])], None), ("text", "ok")], [U1, U2])
+    return out
 
 
 # ---------------------------------------------------------------- kernel-level tie
